@@ -110,7 +110,7 @@ class HistGen:
         self.check_ip = r.choice([1, 1, 1, 0])
         nb = r.choice([27, 27, 24, 28, 29, 30, 16])
         self.netbits = nb
-        self.myip = r.choice(['10.0.0.1', '10.0.0.3', '192.168.7.1', '172.16.0.2'])
+        self.myip = r.choice(['10.0.0.1', '10.0.0.3', '192.168.7.1', '172.16.0.2', '192.168.100.200'])
         self.mtu = r.choice([1130, 1200, 1500])
         self.nsip = r.choice([None, None, bytes([198, 51, 100, 7])])
         self.bind = r.choice([0, 0, 5353])
@@ -122,7 +122,12 @@ class HistGen:
         self.slot_last = {}
         self.stats = dict(version=0, login=0, option=0, ping=0, data=0, dup=0, tun=0, sweep=0, raw=0, hostile=0, timejump=0, aux=0)
         self.qid = r.randrange(1, 65536)
-        # tunnel addresses the server will hand out, mirrors init_users
+        self.set_net(self.myip, nb)
+
+    def set_net(self, myip, nb):
+        """server address and netmask; tunnel addresses the server will hand out (mirrors init_users)"""
+        self.myip = myip
+        self.netbits = nb
         a, b, c, d = [int(x) for x in self.myip.split('.')]
         host = (a << 24) | (b << 16) | (c << 8) | d
         size = 1 << (32 - nb)
@@ -230,6 +235,8 @@ class HistGen:
                 h = h[:15] + bytes((h[15] ^ 0x80,))
             elif mode == 'zeros':
                 h = bytes(16) if h != bytes(16) else bytes([1]) + bytes(15)
+            elif mode in ('len17', 'len18'):
+                h = bytes((h[0] ^ 0x40,)) + h[1:]
             elif mode == 'after-nul':
                 j = h.find(b'\0')
                 k = j + 1 if 0 <= j < 15 else 15
@@ -239,6 +246,8 @@ class HistGen:
                 h = h[:k] + bytes((h[k] ^ 0x10,)) + h[k + 1:]
         s.rs = (s.rs + 1) & 0xffff
         data = bytes([uid & 255]) + h + bytes([s.rs >> 8, s.rs & 255])
+        if not good and mode in ('len17', 'len18'):
+            data = data[:17 if mode == 'len17' else 18]
         self.emit_query(s.addr, qname(b'l', enc(0, data), self.domain))
         self.stats['login'] += 1
         if good and seed_delta == 0 and uid == s.uid:
@@ -562,6 +571,26 @@ def loop_glue(rep, ctx, exe, n, tag):
         return
     hs, st = gen_histories(rep.seed, n, 100, tag=tag, wildcard=0.3)
     rng = vlib.rng_for(rep.seed, tag + '-merge')
+    # targeted: packets for a session pile up (one in flight, more in its ring) before it switches to raw mode -- the ring is then
+    # never drained -- and further packets arrive on the tun device: whether the loop still reads the tun device
+    for k in range(max(4, n // 10)):
+        g = HistGen(rng, adversarial=0.0)
+        g.no_case_relay = True
+        g.set_net(g.myip, rng.choice([24, 27, 28]))
+        ss = [Session(g, (4, bytes([192, 0, 2, 30 + j]), 4100 + j)) for j in range(rng.choice([1, 1, 2]))]
+        for s in ss:
+            g.version(s)
+            g.login(s)
+        s = ss[0]
+        for _ in range(rng.choice([2, 3, 5])):
+            g.tun(dst_ip=g.tun_ips[s.uid], n=rng.choice([60, 150]))
+        g.raw(s, 'login')
+        for _ in range(rng.choice([3, 6])):
+            g.tun(dst_ip=g.tun_ips[rng.choice(ss).uid], n=rng.choice([60, 150]))
+            if rng.randrange(2):
+                g.raw(s, 'ping')
+            g.tick()
+        hs.append('H ' + g.cfg() + ' ; ' + ' ; '.join(g.events))
     ls = [to_loop_history(h, rng) for h in hs]
     rc, impl, err = vlib.parallel_run_cases(exe, ls, ctx.work, 'sloop-impl')
     rc2, mod, err2 = vlib.parallel_run_cases(model, ls, ctx.work, 'sloop-model')
